@@ -11,6 +11,7 @@
 #include <stdint.h>
 #include <stddef.h>
 #include <string.h>
+#include "core/once.h"
 
 /* ============================================================================
  * Function Pointer Types
@@ -447,7 +448,7 @@ typedef struct {
 } carquet_simd_dispatch_t;
 
 static carquet_simd_dispatch_t g_dispatch = {0};
-static int g_dispatch_initialized = 0;
+static carquet_once_t g_dispatch_once = CARQUET_ONCE_INIT;
 
 /* ============================================================================
  * Dispatch Initialization
@@ -455,7 +456,7 @@ static int g_dispatch_initialized = 0;
  */
 
 void carquet_simd_dispatch_init(void) {
-    if (g_dispatch_initialized) {
+    if (carquet_once_done(&g_dispatch_once) || !carquet_once_begin(&g_dispatch_once)) {
         return;
     }
 
@@ -583,7 +584,7 @@ void carquet_simd_dispatch_init(void) {
 
 #endif /* AArch64 */
 
-    g_dispatch_initialized = 1;
+    carquet_once_end(&g_dispatch_once);
 }
 
 /* ============================================================================
@@ -592,105 +593,105 @@ void carquet_simd_dispatch_init(void) {
  */
 
 void carquet_dispatch_prefix_sum_i32(int32_t* values, int64_t count, int32_t initial) {
-    if (!g_dispatch_initialized) carquet_simd_dispatch_init();
+    if (!carquet_once_done(&g_dispatch_once)) carquet_simd_dispatch_init();
     g_dispatch.prefix_sum_i32(values, count, initial);
 }
 
 void carquet_dispatch_prefix_sum_i64(int64_t* values, int64_t count, int64_t initial) {
-    if (!g_dispatch_initialized) carquet_simd_dispatch_init();
+    if (!carquet_once_done(&g_dispatch_once)) carquet_simd_dispatch_init();
     g_dispatch.prefix_sum_i64(values, count, initial);
 }
 
 void carquet_dispatch_gather_i32(const int32_t* dict, const uint32_t* indices,
                                   int64_t count, int32_t* output) {
-    if (!g_dispatch_initialized) carquet_simd_dispatch_init();
+    if (!carquet_once_done(&g_dispatch_once)) carquet_simd_dispatch_init();
     g_dispatch.gather_i32(dict, indices, count, output);
 }
 
 void carquet_dispatch_gather_i64(const int64_t* dict, const uint32_t* indices,
                                   int64_t count, int64_t* output) {
-    if (!g_dispatch_initialized) carquet_simd_dispatch_init();
+    if (!carquet_once_done(&g_dispatch_once)) carquet_simd_dispatch_init();
     g_dispatch.gather_i64(dict, indices, count, output);
 }
 
 void carquet_dispatch_gather_float(const float* dict, const uint32_t* indices,
                                     int64_t count, float* output) {
-    if (!g_dispatch_initialized) carquet_simd_dispatch_init();
+    if (!carquet_once_done(&g_dispatch_once)) carquet_simd_dispatch_init();
     g_dispatch.gather_float(dict, indices, count, output);
 }
 
 void carquet_dispatch_gather_double(const double* dict, const uint32_t* indices,
                                      int64_t count, double* output) {
-    if (!g_dispatch_initialized) carquet_simd_dispatch_init();
+    if (!carquet_once_done(&g_dispatch_once)) carquet_simd_dispatch_init();
     g_dispatch.gather_double(dict, indices, count, output);
 }
 
 void carquet_dispatch_byte_split_encode_float(const float* values, int64_t count,
                                                uint8_t* output) {
-    if (!g_dispatch_initialized) carquet_simd_dispatch_init();
+    if (!carquet_once_done(&g_dispatch_once)) carquet_simd_dispatch_init();
     g_dispatch.byte_split_encode_float(values, count, output);
 }
 
 void carquet_dispatch_byte_split_decode_float(const uint8_t* data, int64_t count,
                                                float* values) {
-    if (!g_dispatch_initialized) carquet_simd_dispatch_init();
+    if (!carquet_once_done(&g_dispatch_once)) carquet_simd_dispatch_init();
     g_dispatch.byte_split_decode_float(data, count, values);
 }
 
 void carquet_dispatch_byte_split_encode_double(const double* values, int64_t count,
                                                 uint8_t* output) {
-    if (!g_dispatch_initialized) carquet_simd_dispatch_init();
+    if (!carquet_once_done(&g_dispatch_once)) carquet_simd_dispatch_init();
     g_dispatch.byte_split_encode_double(values, count, output);
 }
 
 void carquet_dispatch_byte_split_decode_double(const uint8_t* data, int64_t count,
                                                 double* values) {
-    if (!g_dispatch_initialized) carquet_simd_dispatch_init();
+    if (!carquet_once_done(&g_dispatch_once)) carquet_simd_dispatch_init();
     g_dispatch.byte_split_decode_double(data, count, values);
 }
 
 void carquet_dispatch_unpack_bools(const uint8_t* input, uint8_t* output, int64_t count) {
-    if (!g_dispatch_initialized) carquet_simd_dispatch_init();
+    if (!carquet_once_done(&g_dispatch_once)) carquet_simd_dispatch_init();
     g_dispatch.unpack_bools(input, output, count);
 }
 
 void carquet_dispatch_pack_bools(const uint8_t* input, uint8_t* output, int64_t count) {
-    if (!g_dispatch_initialized) carquet_simd_dispatch_init();
+    if (!carquet_once_done(&g_dispatch_once)) carquet_simd_dispatch_init();
     g_dispatch.pack_bools(input, output, count);
 }
 
 int64_t carquet_dispatch_find_run_length_i32(const int32_t* values, int64_t count) {
-    if (!g_dispatch_initialized) carquet_simd_dispatch_init();
+    if (!carquet_once_done(&g_dispatch_once)) carquet_simd_dispatch_init();
     return g_dispatch.find_run_length_i32(values, count);
 }
 
 uint32_t carquet_dispatch_crc32c(uint32_t crc, const uint8_t* data, size_t len) {
-    if (!g_dispatch_initialized) carquet_simd_dispatch_init();
+    if (!carquet_once_done(&g_dispatch_once)) carquet_simd_dispatch_init();
     return g_dispatch.crc32c(crc, data, len);
 }
 
 void carquet_dispatch_match_copy(uint8_t* dst, const uint8_t* src, size_t len, size_t offset) {
-    if (!g_dispatch_initialized) carquet_simd_dispatch_init();
+    if (!carquet_once_done(&g_dispatch_once)) carquet_simd_dispatch_init();
     g_dispatch.match_copy(dst, src, len, offset);
 }
 
 size_t carquet_dispatch_match_length(const uint8_t* p, const uint8_t* match, const uint8_t* limit) {
-    if (!g_dispatch_initialized) carquet_simd_dispatch_init();
+    if (!carquet_once_done(&g_dispatch_once)) carquet_simd_dispatch_init();
     return g_dispatch.match_length(p, match, limit);
 }
 
 int64_t carquet_dispatch_count_non_nulls(const int16_t* def_levels, int64_t count, int16_t max_def_level) {
-    if (!g_dispatch_initialized) carquet_simd_dispatch_init();
+    if (!carquet_once_done(&g_dispatch_once)) carquet_simd_dispatch_init();
     return g_dispatch.count_non_nulls(def_levels, count, max_def_level);
 }
 
 void carquet_dispatch_build_null_bitmap(const int16_t* def_levels, int64_t count,
                                          int16_t max_def_level, uint8_t* null_bitmap) {
-    if (!g_dispatch_initialized) carquet_simd_dispatch_init();
+    if (!carquet_once_done(&g_dispatch_once)) carquet_simd_dispatch_init();
     g_dispatch.build_null_bitmap(def_levels, count, max_def_level, null_bitmap);
 }
 
 void carquet_dispatch_fill_def_levels(int16_t* def_levels, int64_t count, int16_t value) {
-    if (!g_dispatch_initialized) carquet_simd_dispatch_init();
+    if (!carquet_once_done(&g_dispatch_once)) carquet_simd_dispatch_init();
     g_dispatch.fill_def_levels(def_levels, count, value);
 }
